@@ -6,6 +6,14 @@ connect (public/random own addresses on either end, legacy/extended advertising,
 BR/EDR), overlapping incoming/outgoing connects, data on a test fixed channel, disconnects
 by either side, scanning (active/passive). A routing model kept by the harness says who must
 have received what.
+
+Second family ("overlaps"): the same alphabet plus what the first family never produces -
+other devices (and the initiator itself) advertising while a connect is pending, connects to
+an address that nobody advertises at that moment, two connects in flight at once (same
+advertiser = a race, distinct advertisers, chains), PDUs sent the moment a connection is
+reported (no quiescence), back-to-back bursts over several connections and both directions,
+disconnects issued by both ends at once, advertising payloads of 0..31 bytes, and HCI delays
+that differ per device.
 """
 
 from __future__ import annotations
@@ -27,11 +35,27 @@ RULE = (
     'oracle = routing model (right peer, exactly once, in order, nowhere else; both ends report matching '
     'addresses and live distinct handles; disconnection reported to both and tables emptied; advertising and '
     'scan-response data byte for byte). non-trivial = (>=3 devices or a public own-address or extended '
-    'advertising or an overlapping connect) and at least one payload transferred or a scan; distinct by history.'
+    'advertising or an overlapping connect) and at least one payload transferred or a scan; distinct by history. '
+    'Family "overlaps": same histories with per-device HCI delays and additional operations: connect with other '
+    'devices (possibly the initiator too, public or random own address) advertising while the connect is pending '
+    'and a PDU sent by the central the moment connect() returns / by the peripheral from its connection event; '
+    'miss = connect to an address that is not advertised at that moment (other own-address type of an advertising '
+    'peer, a silent peer among advertising bystanders, an unowned BD_ADDR over BR/EDR): nobody may get a '
+    'connection; multi = two connects in flight at once (same advertiser, distinct advertisers, chain through a '
+    'device that is central and peripheral): no half-open connection may remain, every live one is reported by '
+    'both ends; burst = PDUs written back to back on several connections and in both directions with no loop '
+    'iteration in between: per connection exactly once, in order, nowhere else; disc by both ends at once: '
+    'reported to both, tables emptied, neither disconnect() hangs; scans with advertising / scan-response '
+    'payloads of 0..31 bytes.'
 )
 ASSUMPTIONS = [
     'link/HCI delays are order-preserving; the harness fixes the link iteration order per case',
     'a connect() to a peer that advertises succeeds within the virtual horizon (no RF loss in the virtual link)',
+    'when two initiators race for one legacy/extended advertiser at least one of them is connected; what happens '
+    'to the other is left open by the property (it may fail, stay pending until its timeout, or be reported a '
+    'connection that is then reported disconnected) as long as no end keeps a live connection the other end '
+    'does not have',
+    'PDUs written right before BOTH ends disconnect at once are not judged (the receiver may already be gone)',
 ]
 
 CID = 0x3A  # a fixed channel id nobody else uses
@@ -71,6 +95,81 @@ def case_strategy():
     )
 
 
+def _multi_pairs(n):
+    """Two connects in flight at once: [[i, j], [k, l]] with i != k."""
+    # (one_of() drops repeated strategy OBJECTS: weights need separately built strategies)
+    def perm():
+        return st.permutations(range(n))
+
+    shapes = [
+        perm().map(lambda p: [[p[0], p[2]], [p[1], p[2]]]),  # two initiators race for one advertiser
+        perm().map(lambda p: [[p[0], p[2]], [p[1], p[2]]]),
+        perm().map(lambda p: [[p[0], p[1]], [p[1], p[2]]]),  # chain: p1 is peripheral and central at once
+        perm().map(lambda p: [[p[0], p[1]], [p[2], p[0]]]),  # p0 connects out while p2 connects to it
+    ]
+    if n >= 4:
+        # disjoint pairs, two advertisers
+        shapes += [perm().map(lambda p: [[p[0], p[1]], [p[2], p[3]]]) for _ in range(3)]
+    return st.one_of(*shapes)
+
+
+# (advertising data length, scan response data length)
+PAYLOAD_SHAPES = [(7, 5), (0, 0), (31, 31), (31, 0), (0, 31), (3, 30), (30, 2), (1, 1), (16, 17), (0, 9), (31, 7)]
+
+
+def ops_strategy_overlaps(n):
+    dev = st.integers(0, n - 1)
+    pair = st.tuples(dev, dev).filter(lambda p: p[0] != p[1])
+
+    def connect():
+        return st.tuples(st.just('connect'), pair, st.booleans(), st.booleans(), st.integers(0, 255), st.integers(0, 3))
+
+    def burst():
+        return st.tuples(
+            st.just('burst'),
+            st.lists(st.tuples(st.integers(0, 5), st.integers(0, 1), st.integers(1, 4)), min_size=1, max_size=4),
+            st.booleans(), st.sampled_from([1, 9, 23, 24, 60, 80]),
+        )
+
+    def multi():
+        return st.tuples(st.just('multi'), _multi_pairs(n), st.booleans()) if n >= 3 else connect()
+
+    op = st.one_of(
+        connect(), connect(),
+        multi(), multi(),
+        burst(), burst(),
+        st.tuples(st.just('miss'), pair, st.integers(0, 3), st.integers(0, 15)),
+        st.tuples(st.just('miss'), pair, st.integers(0, 3), st.integers(1, 15)),
+        st.tuples(st.just('classic'), pair, st.integers(0, 3)),
+        st.tuples(st.just('advset'), pair, st.booleans()),
+        st.tuples(st.just('cross'), st.permutations(range(n)).map(lambda p: tuple(p[:3])), st.booleans()) if n >= 3 else connect(),
+        st.tuples(st.just('send'), st.integers(0, 5), st.integers(0, 1), st.integers(1, 60)),
+        st.tuples(st.just('disc'), st.integers(0, 5), st.integers(0, 2), st.sampled_from([0, 0, 1, 3])),
+        st.tuples(st.just('disc'), st.integers(0, 5), st.just(2), st.sampled_from([0, 2])),
+        st.tuples(st.just('scan'), dev, st.booleans(), st.integers(1, 2 ** n - 1), st.booleans(),
+                  st.integers(0, len(PAYLOAD_SHAPES) - 1)),
+        st.tuples(st.just('scan'), dev, st.booleans(), st.integers(1, 2 ** n - 1), st.booleans(),
+                  st.integers(1, len(PAYLOAD_SHAPES) - 1)),
+    )
+    return st.lists(op, min_size=1, max_size=10)
+
+
+def case_strategy_overlaps():
+    delay = st.lists(st.sampled_from([0, 0, 0, 2, 9, 40]), max_size=3)
+    return st.integers(2, 4).flatmap(
+        lambda n: st.fixed_dictionaries(
+            {
+                'n': st.just(n),
+                'ext': st.lists(st.booleans(), min_size=n, max_size=n),
+                # one delay cycle per device: the devices do not see HCI traffic at the same pace
+                'delays': st.one_of(st.just([]), st.lists(delay, min_size=n, max_size=n)),
+                'order': st.permutations(range(n)).map(list),
+                'ops': ops_strategy_overlaps(n),
+            }
+        )
+    )
+
+
 def _plain(x):
     if isinstance(x, (list, tuple)):
         return [_plain(v) for v in x]
@@ -92,8 +191,15 @@ def run_case(ctx, case) -> None:
         ctx.fail(sig, what, c)
         raise _Abort()
 
+    delays = case['delays'] or None
+    per_device = bool(delays) and isinstance(delays[0], (list, tuple))
+    delay_sum = sum(sum(d) for d in delays) if per_device else sum(delays or [0])
+    if per_device:
+        labels.add('per_device_delays')
+
     async def main():
-        w = world.World(n, delays=case['delays'] or None, classic=True, link_order=case['order'])
+        w = world.World(n, delays=[list(d) for d in delays] if per_device else delays, classic=True,
+                        link_order=case['order'])
         for i, node in enumerate(w.nodes):
             feat = int(node.controller.le_features)
             if case['ext'][i]:
@@ -127,7 +233,7 @@ def run_case(ctx, case) -> None:
             return w[i].device.random_address
 
         async def settle():
-            await asyncio.sleep(0.3 + 0.1 * sum(case['delays'] or [0]))
+            await asyncio.sleep(0.3 + 0.1 * delay_sum)
 
         def same_addr(x, y):
             return bytes(x) == bytes(y) and x.is_public == y.is_public
@@ -185,10 +291,117 @@ def run_case(ctx, case) -> None:
         def live_between(i, j, transport):
             return any(c['alive'] and {c['a'], c['b']} == {i, j} and c['transport'] == transport for c in conns)
 
+        async def start_adv(d, public=False):
+            await w[d].device.start_advertising(
+                own_address_type=hci.OwnAddressType.PUBLIC if public else hci.OwnAddressType.RANDOM,
+                advertising_interval_min=2000.0, advertising_interval_max=2000.0,
+            )
+
+        async def stop_adv(d):
+            try:
+                await w[d].device.stop_advertising()
+            except Exception:
+                pass
+
+        def next_payload(c, tag, length=5):
+            counter[0] += 1
+            return bytes([counter[0] & 0xFF, c[0], c[1], tag]) + bytes((counter[0] + x) & 0xFF for x in range(length))
+
+        def eager_hooks(i, j, eager, sent):
+            """bit 1: the accepting side writes a PDU from inside its 'connection' event."""
+            if eager & 2:
+                def hook(c):
+                    payload = next_payload((i, j), 0xE2)
+                    sent['p2c'] = payload
+                    c.send_l2cap_pdu(CID, payload)
+
+                w[j].device.once('connection', hook)
+
+        def eager_central(i, j, ca, eager, sent):
+            """bit 0: the initiator writes a PDU the moment connect() has returned (no loop iteration in between)."""
+            if eager & 1:
+                payload = next_payload((i, j), 0xE1)
+                sent['c2p'] = payload
+                ca.send_l2cap_pdu(CID, payload)
+
+        def check_eager(rec, sent, imark):
+            i, j = rec['a'], rec['b']
+            want = {d: [] for d in range(n)}
+            if 'c2p' in sent:
+                want[j].append((rec['cb'].handle, sent['c2p']))
+            if 'p2c' in sent:
+                want[i].append((rec['ca'].handle, sent['p2c']))
+            for d in range(n):
+                got = inbox[d][imark[d]:]
+                if got != want[d]:
+                    which = 'misrouted' if d not in (i, j) else ('c2p' if d == j else 'p2c')
+                    fail(f'delivery/right_after_connect/{rec["transport"].name}/{which}',
+                         f'PDU(s) written the moment the connection {i}->{j} was reported: device {d} received '
+                         f'{[(h, p.hex()) for h, p in got]}, expected {[(h, p.hex()) for h, p in want[d]]}')
+            if sent:
+                state['moved'] += len(sent)
+                labels.add('payload_right_after_connect')
+                for k in sent:
+                    labels.add(f'payload_right_after_connect:{rec["transport"].name}:{k}')
+
         for step, op in enumerate(ops):
             state['step'] = step
             kind = op[0]
-            if kind == 'connect':
+            if kind == 'connect' and len(op) > 5 and (op[4] or op[5]):
+                # connect while other devices advertise too; PDUs the moment the connection is reported
+                (i, j), ci_public, pj_public, amb, eager = op[1], op[2], op[3], int(op[4]), int(op[5])
+                if live_between(i, j, PhysicalTransport.LE):
+                    continue
+                byst = [d for d in range(n) if d != j and amb >> d & 1]
+                before = {k: len(events[k]) for k in range(n)}
+                imark = {d: len(inbox[d]) for d in range(n)}
+                sent = {}
+                eager_hooks(i, j, eager, sent)
+                target = own_address(j, pj_public)
+                if not byst:
+                    # connect() awaited directly: the eager PDU is written in the very step connect() returns
+                    await start_adv(j, pj_public)
+                t_out = w[i].device.connect(
+                    target, own_address_type=hci.OwnAddressType.PUBLIC if ci_public else hci.OwnAddressType.RANDOM,
+                    timeout=40.0)
+                if byst:
+                    # the initiator is pending when the bystanders' advertisements go out; j is still silent
+                    t_out = asyncio.ensure_future(t_out)
+                    await asyncio.sleep(0.3)
+                    for d in byst:
+                        await start_adv(d, public=bool(amb >> (4 + d) & 1))
+                    await asyncio.sleep(0.3)
+                    if t_out.done():
+                        got = t_out.result() if not t_out.exception() else None
+                        for d in byst:
+                            await stop_adv(d)
+                        fail('caller_wrong_connection/bystander_advertisement_completes_connect',
+                             f'connect({i}->{j}, {target}) completed with '
+                             f'{got.peer_address if got else repr(t_out.exception())} when only {byst} were advertising')
+                    await start_adv(j, pj_public)
+                try:
+                    ca = await t_out  # (Device.connect has its own 40 s timeout)
+                except Exception as e:  # noqa: BLE001
+                    fail(f'connect_failed/{type(e).__name__}/{"ext" if case["ext"][j] else "legacy"}_adv/bystanders',
+                         f'connect({i}->{j}) to an advertising peer failed while {byst} advertise too: {e!r}')
+                eager_central(i, j, ca, eager, sent)
+                await settle()
+                for d in [j] + byst:
+                    await stop_adv(d)
+                rec = check_new_connection(i, j, ca, before, PhysicalTransport.LE, ci_public, pj_public)
+                check_eager(rec, sent, imark)
+                labels.add('le_connect')
+                if byst:
+                    labels.add('connect_among_advertisers')
+                    if i in byst:
+                        labels.add('initiator_also_advertises')
+                    if any(amb >> (4 + d) & 1 for d in byst):
+                        labels.add('bystander_public_address')
+                if ci_public or pj_public:
+                    labels.add('public_own_address')
+                if case['ext'][j]:
+                    labels.add('extended_advertising')
+            elif kind == 'connect':
                 (i, j), ci_public, pj_public = op[1], op[2], op[3]
                 if live_between(i, j, PhysicalTransport.LE):
                     continue
@@ -285,16 +498,201 @@ def run_case(ctx, case) -> None:
                 labels.add('advertising_set_own_address')
             elif kind == 'classic':
                 i, j = op[1]
+                eager = int(op[2]) if len(op) > 2 else 0
                 if live_between(i, j, PhysicalTransport.BR_EDR):
                     continue
                 before = {d: len(events[d]) for d in range(n)}
+                imark = {d: len(inbox[d]) for d in range(n)}
+                sent = {}
+                eager_hooks(i, j, eager, sent)
                 try:
                     ca = await w[i].device.connect(w[j].controller.public_address, transport=PhysicalTransport.BR_EDR, timeout=30.0)
                 except Exception as e:  # noqa: BLE001
                     fail(f'connect_failed/{type(e).__name__}/classic', f'classic connect({i}->{j}) failed: {e!r}')
+                eager_central(i, j, ca, eager, sent)
                 await settle()
-                check_new_connection(i, j, ca, before, PhysicalTransport.BR_EDR, True, True)
+                rec = check_new_connection(i, j, ca, before, PhysicalTransport.BR_EDR, True, True)
+                check_eager(rec, sent, imark)
                 labels.add('classic_connect')
+            elif kind == 'miss':
+                # a connection attempt to an address that nobody advertises (owns) at this moment reaches nobody
+                (i, j), variant, amb = op[1], int(op[2]), int(op[3])
+                if variant != 3 and live_between(i, j, PhysicalTransport.LE):
+                    continue
+                before = {d: len(events[d]) for d in range(n)}
+                tables = {d: (len(w[d].controller.le_connections), len(w[d].controller.classic_connections),
+                              len(w[d].device.connections)) for d in range(n)}
+                byst = [d for d in range(n) if d not in (i, j) and amb >> d & 1]
+                advertising = list(byst)
+                transport = PhysicalTransport.LE
+                if variant == 0:  # j advertises its public address, i asks for j's random address
+                    target, adv_public = own_address(j, False), True
+                    advertising.append(j)
+                elif variant == 1:  # j advertises its random address, i asks for j's public address
+                    target, adv_public = own_address(j, True), False
+                    advertising.append(j)
+                elif variant == 2:  # j is silent (connectable, but not advertising); the others advertise
+                    target, adv_public = own_address(j, False), False
+                else:  # BR/EDR page of a BD_ADDR that no controller on the link owns
+                    target = hci.Address(bytes([0xE0 | j, 0x10 | i, 0x5E, 0x5E, 0x5E, 0xE0 | j]), hci.Address.PUBLIC_DEVICE_ADDRESS)
+                    transport = PhysicalTransport.BR_EDR
+                for d in byst:
+                    await start_adv(d, public=bool(amb >> (4 + d) & 1))
+                if variant in (0, 1):
+                    await start_adv(j, adv_public)
+                got = None
+                try:
+                    if transport == PhysicalTransport.LE:
+                        got = await w[i].device.connect(target, timeout=4.0)
+                    else:
+                        got = await w[i].device.connect(target, transport=transport, timeout=4.0)
+                except Exception:  # noqa: BLE001 - the attempt has to fail, how is not prescribed
+                    pass
+                await settle()
+                for d in advertising:
+                    await stop_adv(d)
+                tag = ('other_address_type_public_advertised', 'other_address_type_random_advertised',
+                       'silent_peer', 'unowned_bd_addr')[variant]
+                if got is not None:
+                    fail(f'caller_wrong_connection/address_not_advertised/{tag}',
+                         f'connect({i}->{target}) returned a connection to {got.peer_address} although nobody '
+                         f'advertises/owns that address (advertising: {advertising})')
+                for d in range(n):
+                    if len(events[d]) != before[d]:
+                        fail(f'bystander_connection/address_not_advertised/{tag}',
+                             f'device {d} got a connection event for connect({i}->{target}), an address nobody advertises')
+                    now = (len(w[d].controller.le_connections), len(w[d].controller.classic_connections),
+                           len(w[d].device.connections))
+                    if now != tables[d]:
+                        fail(f'phantom_connection/address_not_advertised/{tag}',
+                             f'device {d}: connection tables went {tables[d]} -> {now} for connect({i}->{target})')
+                labels.add('connect_address_not_advertised')
+                labels.add(f'connect_address_not_advertised:{tag}')
+                if byst:
+                    labels.add('miss_among_advertisers')
+            elif kind == 'multi':
+                # two connects in flight at once
+                (i, j), (k, l) = op[1][0], op[1][1]
+                adv_first = bool(op[2])
+                if len({i, k}) != 2 or i == j or k == l or (i == l and j == k) or max(i, j, k, l) >= n:
+                    continue
+                if live_between(i, j, PhysicalTransport.LE) or live_between(k, l, PhysicalTransport.LE):
+                    continue
+                shape = 'same_advertiser' if j == l else ('chain' if (j == k or i == l) else 'distinct_advertisers')
+                before = {d: len(events[d]) for d in range(n)}
+                attempts = [(i, j), (k, l)]
+                advertisers = sorted({j, l})
+
+                def launch():
+                    return [loop.create_task(w[a].device.connect(w[b].device.random_address, timeout=8.0))
+                            for a, b in attempts]
+
+                if adv_first:
+                    for d in advertisers:
+                        await start_adv(d)
+                    tasks = launch()
+                else:
+                    tasks = launch()
+                    await asyncio.sleep(0.3)
+                    for d in advertisers:
+                        await start_adv(d)
+                results = await asyncio.gather(*tasks, return_exceptions=True)
+                await settle()
+                for d in advertisers:
+                    await stop_adv(d)
+                labels.add('concurrent_connects')
+                labels.add(f'concurrent_connects:{shape}')
+                made = []
+                for (a, b), r in zip(attempts, results):
+                    a_addr, b_addr = w[a].device.random_address, w[b].device.random_address
+                    peer_side = [c for c in events[b][before[b]:] if same_addr(c.peer_address, a_addr)]
+                    peer_live = [c for c in peer_side if c not in discs[b]]
+                    if isinstance(r, BaseException):
+                        if not isinstance(r, Exception):
+                            raise r
+                        ca = None
+                    else:
+                        ca = r
+                        if not same_addr(ca.peer_address, b_addr):
+                            fail('caller_wrong_connection/concurrent',
+                                 f'connect({a}->{b}) returned a connection to {ca.peer_address} ({shape})')
+                    a_live = ca is not None and ca not in discs[a]
+                    if len(peer_side) > 1:
+                        fail(f'peer_connection_report/LE/concurrent/{shape}',
+                             f'{b} reported {len(peer_side)} connections from {a}')
+                    if a_live and not peer_live:
+                        fail(f'half_open_connection/{shape}/initiator_only',
+                             f'connect({a}->{b}) handed its caller a live connection (handle {ca.handle}) that {b} '
+                             f'never reported: {b} saw {[str(c.peer_address) for c in events[b][before[b]:]]}')
+                    if peer_live and not a_live:
+                        fail(f'half_open_connection/{shape}/advertiser_only',
+                             f'{b} holds a live connection from {a} whose connect() ended with {r!r}')
+                    if a_live:
+                        made.append({'a': a, 'b': b, 'ca': ca, 'cb': peer_live[0], 'alive': True,
+                                     'transport': PhysicalTransport.LE})
+                    elif shape != 'same_advertiser':
+                        how = type(r).__name__ if ca is None else 'connected_then_disconnected'
+                        fail(f'connect_failed/{how}/concurrent/{shape}',
+                             f'connect({a}->{b}) to an advertising peer failed while both of {attempts} were in flight: {r!r}')
+                if not made:
+                    fail(f'connect_failed/concurrent/{shape}/nobody_connected',
+                         f'neither of {attempts} was connected: {results!r}')
+                for d in range(n):
+                    if d not in (i, j, k, l) and len(events[d]) != before[d]:
+                        fail('bystander_connection', f'device {d} got a connection event for the connects {attempts}')
+                for rec in made:
+                    for d, c in ((rec['a'], rec['ca']), (rec['b'], rec['cb'])):
+                        handles = [x.handle for x in w[d].device.connections.values()]
+                        if len(handles) != len(set(handles)) or c.handle not in handles:
+                            fail('handles', f'device {d}: handles {handles} not distinct/live')
+                        if w[d].controller.find_connection_by_handle(c.handle) is None:
+                            fail('handles', f'device {d}: handle {c.handle} unknown to its controller')
+                    conns.append(rec)
+                if len(made) == 2:
+                    labels.add('concurrent_connects:both_connected')
+                else:
+                    labels.add('concurrent_connects:one_connected')
+            elif kind == 'burst':
+                # PDUs written back to back (no loop iteration in between) on several connections, both directions
+                live = [c for c in conns if c['alive']]
+                if not live:
+                    continue
+                entries, rr, base = op[1], bool(op[2]), int(op[3])
+                plan = []
+                for e_i, (sel, side, count) in enumerate(entries):
+                    c = live[sel % len(live)]
+                    sconn, rconn, rcv = (c['ca'], c['cb'], c['b']) if side == 0 else (c['cb'], c['ca'], c['a'])
+                    plan.append([(sconn, rcv, rconn.handle, next_payload((c['a'], c['b']), 0xB0 | e_i, base + 7 * ((3 * q + e_i) % 4)))
+                                 for q in range(int(count))])
+                if rr:
+                    seq = [x for rnd in range(4) for lst in plan if rnd < len(lst) for x in [lst[rnd]]]
+                else:
+                    seq = [x for lst in plan for x in lst]
+                imark = {d: len(inbox[d]) for d in range(n)}
+                want = {d: {} for d in range(n)}
+                for sconn, rcv, handle, payload in seq:
+                    want[rcv].setdefault(handle, []).append(payload)
+                    sconn.send_l2cap_pdu(CID, payload)
+                await settle()
+                for d in range(n):
+                    got = {}
+                    for h, p in inbox[d][imark[d]:]:
+                        got.setdefault(h, []).append(p)
+                    if got != want[d]:
+                        stray = [h for h in got if h not in want[d]]
+                        fail('delivery/burst/' + ('misrouted' if stray else 'lost_duplicated_or_reordered'),
+                             f'burst of {len(seq)} PDUs: device {d} received per handle '
+                             f'{ {h: [p[:4].hex() for p in v] for h, v in got.items()} }, expected '
+                             f'{ {h: [p[:4].hex() for p in v] for h, v in want[d].items()} }')
+                state['moved'] += len(seq)
+                labels.add('burst')
+                used = {(sel % len(live), side) for sel, side, count in entries}
+                if len({u[0] for u in used}) >= 2:
+                    labels.add('burst_several_connections')
+                if len(used) > len({u[0] for u in used}):
+                    labels.add('burst_both_directions')
+                if any(len(x[3]) > 27 for x in seq):
+                    labels.add('burst_fragmented_pdu')
             elif kind == 'send':
                 live = [c for c in conns if c['alive']]
                 if not live:
@@ -324,6 +722,35 @@ def run_case(ctx, case) -> None:
                     continue
                 c = live[op[1] % len(live)]
                 side = op[2]
+                if side == 2:
+                    # both ends disconnect at once: each must be told, neither call may hang
+                    marks = {d: len(discs[d]) for d in range(n)}
+                    both = [loop.create_task(asyncio.wait_for(x.disconnect(), 30.0)) for x in (c['ca'], c['cb'])]
+                    res = await asyncio.gather(*both, return_exceptions=True)
+                    await settle()
+                    c['alive'] = False
+                    labels.add('disconnect_by_both_ends')
+                    for end, r in zip(('central', 'peripheral'), res):
+                        if isinstance(r, (asyncio.TimeoutError, TimeoutError)):
+                            fail(f'disconnect_failed/TimeoutError/both_ends/{c["transport"].name}',
+                                 f'disconnect() of the {end} never finished when both ends disconnected at once')
+                        if isinstance(r, BaseException) and not isinstance(r, Exception):
+                            raise r
+                        if isinstance(r, Exception):
+                            labels.add('disconnect_by_both_ends:one_call_refused')
+                    for d, conn in ((c['a'], c['ca']), (c['b'], c['cb'])):
+                        if conn not in discs[d][marks[d]:]:
+                            fail(f'disconnection_not_reported/{c["transport"].name}/both_ends',
+                                 f'device {d} got no disconnection event when both ends disconnected at once')
+                        if conn.handle in w[d].device.connections and w[d].device.connections[conn.handle] is conn:
+                            fail('stale_connection/device', f'device {d} still lists the connection')
+                        if conn.handle in w[d].host.connections:
+                            fail('stale_connection/host', f'host {d} still lists handle {conn.handle}')
+                        ctrl = w[d].controller
+                        tbl = ctrl.le_connections if c['transport'] == PhysicalTransport.LE else ctrl.classic_connections
+                        if any(x.handle == conn.handle for x in tbl.values()):
+                            fail('stale_connection/controller', f'controller {d} still lists handle {conn.handle}')
+                    continue
                 who = c['ca'] if side == 0 else c['cb']
                 marks = {d: len(discs[d]) for d in range(n)}
                 # PDUs put on the connection immediately before the disconnection (no loop iteration in between):
@@ -368,6 +795,7 @@ def run_case(ctx, case) -> None:
                         fail('stale_connection/controller', f'controller {d} still lists handle {conn.handle}')
             elif kind == 'scan':
                 s, active, mask, legacy_api = op[1], op[2], op[3], op[4]
+                adv_len, rsp_len = PAYLOAD_SHAPES[int(op[5]) % len(PAYLOAD_SHAPES)] if len(op) > 5 else PAYLOAD_SHAPES[0]
                 advertisers = [d for d in range(n) if d != s and mask >> d & 1]
                 if not advertisers:
                     continue
@@ -379,6 +807,10 @@ def run_case(ctx, case) -> None:
                     counter[0] += 1
                     adv_data = bytes([2, 0x01, 0x06, 3, 0xFF, d, counter[0] & 0xFF])
                     rsp_data = bytes([4, 0x09, 0x41 + d, 0x42, counter[0] & 0xFF])
+                    if len(op) > 5 and (adv_len, rsp_len) != PAYLOAD_SHAPES[0]:
+                        # one manufacturer-specific AD structure that fills exactly adv_len / rsp_len bytes
+                        adv_data = (bytes([max(adv_len - 1, 0), 0xFF, d, counter[0] & 0xFF]) + bytes(range(0x30, 0x30 + 31)))[:adv_len]
+                        rsp_data = (bytes([max(rsp_len - 1, 0), 0xFF, 0x80 | d, counter[0] & 0xFF]) + bytes(range(0x60, 0x60 + 31)))[:rsp_len]
                     adv[d] = (adv_data, rsp_data)
                     await w[d].device.start_advertising(
                         advertising_data=adv_data, scan_response_data=rsp_data,
@@ -395,6 +827,10 @@ def run_case(ctx, case) -> None:
                 reports = collect_reports(w[s].tap.log[mark:])
                 labels.add('scan_active' if active else 'scan_passive')
                 state['scanned'] += 1
+                if adv_len == 31:
+                    labels.add('advertising_data_31_bytes')
+                if adv_len == 0:
+                    labels.add('advertising_data_empty')
                 for d in advertisers:
                     addr = bytes(w[d].device.random_address)
                     mine = [r for r in reports if r[0] == addr]
@@ -437,7 +873,8 @@ def run_case(ctx, case) -> None:
         c['kind'] = 'history'
         op = ops[state['step']][0] if state['step'] >= 0 else 'setup'
         ctx.fail(f'hang/{op}/{outcome}', f'operation {op} never completed ({outcome})', c)
-    interesting = n >= 3 or bool(labels & {'public_own_address', 'extended_advertising', 'overlapping_connect', 'classic_connect'})
+    interesting = n >= 3 or bool(labels & {'public_own_address', 'extended_advertising', 'overlapping_connect', 'classic_connect',
+                                           'connect_among_advertisers', 'concurrent_connects'})
     ctx.case((n, case['ext'], case['delays'], case['order'], ops), interesting and (state['moved'] > 0 or state['scanned'] > 0),
              labels | {f'devices:{n}'}, sample={'n': n, 'ext': case['ext'], 'delays': case['delays'], 'ops': ops})
 
@@ -466,11 +903,26 @@ def collect_reports(log):
 def run(ctx) -> None:
     vloop.selftest()
     ctx.hyp('histories', lambda c: run_case(ctx, c), case_strategy(), max_examples=ctx.n(1400, 30000))
+    ctx.hyp('overlaps', lambda c: run_case(ctx, c), case_strategy_overlaps(), max_examples=ctx.n(450, 12000))
     for label in ('le_connect', 'classic_connect', 'public_own_address', 'extended_advertising',
                   'overlapping_connect', 'payload', 'disconnect_by_central', 'disconnect_by_peripheral',
                   'scan_active', 'scan_passive', 'devices:4', 'scanner_also_advertises',
                   'advertising_set_own_address'):
         ctx.floor(label, 8)
+    # classes only the "overlaps" family produces (random families: every shard reaches them)
+    for label in ('connect_among_advertisers', 'initiator_also_advertises', 'bystander_public_address',
+                  'payload_right_after_connect:LE:c2p', 'payload_right_after_connect:LE:p2c',
+                  'payload_right_after_connect:BR_EDR:c2p', 'payload_right_after_connect:BR_EDR:p2c',
+                  'connect_address_not_advertised:other_address_type_public_advertised',
+                  'connect_address_not_advertised:other_address_type_random_advertised',
+                  'connect_address_not_advertised:silent_peer', 'connect_address_not_advertised:unowned_bd_addr',
+                  'miss_among_advertisers',
+                  'concurrent_connects:same_advertiser', 'concurrent_connects:chain',
+                  'concurrent_connects:distinct_advertisers',
+                  'burst_several_connections', 'burst_both_directions', 'burst_fragmented_pdu',
+                  'disconnect_by_both_ends', 'per_device_delays',
+                  'advertising_data_31_bytes', 'advertising_data_empty'):
+        ctx.floor(label, 5)
 
 
 def replay(ctx, case) -> None:
